@@ -336,7 +336,33 @@ pub fn run(tier: Tier) -> i32 {
                 jobs.push((Filter::Link(l), vec!["--filter-link".into(), format!("{l}")], dest.to_string(), "destination"));
             }
         }
+        // layer / stave numbers no RDH can carry (the FEE ID holds 3 bits of layer and 6 bits of stave): such a filter
+        // selects nothing, or is refused - it is not another stave's filter (8 + 3 = L3 and 64 + 2 = stave 2 if wrapped)
+        for sp in ["L11_2", "L3_66", "L3_76", "L8_35", "L13_35", "l19_12", "L3_130", "L255_255"] {
+            let none = Filter::LayerStave(Rdh::its_fee_id(7, 63, 0));
+            jobs.push((none, vec!["--filter-its-stave".into(), sp.to_string()], "out.raw".into(), "out-of-range-filter"));
+            jobs.push((none, vec!["-s".into(), sp.to_string()], "-".into(), "out-of-range-filter"));
+        }
         let res = par_map(&jobs, |_, (f, fargs, dest, kind)| -> Option<(String, String)> {
+            if *kind == "out-of-range-filter" {
+                let scratch = Scratch::new("c08r");
+                let mut a = vec![scratch.file("in.raw", &bytes).display().to_string()];
+                a.extend(fargs.iter().cloned());
+                if dest != "-" {
+                    a.extend(["-o".to_string(), dest.clone()]);
+                }
+                let r = Run::new(&a).cwd(&scratch.path).run();
+                if r.timed_out {
+                    return Some((format!("{kind}:timeout"), "the run did not end".into()));
+                }
+                let written = if dest == "-" { r.stdout.clone() } else { std::fs::read(scratch.join(dest)).unwrap_or_default() };
+                // stdout may carry the report; packets are recognised by the first header of the stream's staves
+                let has_packet = pk.iter().any(|p| { let b = p.bytes(); written.windows(64).any(|w| w == &b[..64]) });
+                if has_packet {
+                    return Some((format!("{kind}:packets-of-another-stave-written"), format!("exit {:?}: the output holds packets although no header can carry this layer / stave", r.status)));
+                }
+                return None;
+            }
             let scratch = Scratch::new("c08s");
             let _ = std::fs::create_dir_all(scratch.join("sub"));
             let mut a = vec![scratch.file("in.raw", &bytes).display().to_string()];
